@@ -151,10 +151,18 @@ def churn_shard(shard, nshards, seed, tier, exe, nhist):
                         opts |= KEY_IS_NEW
                     if rng.random() < 0.15 and len(k) < 50:
                         opts |= CONST_KEY
-                    cmds.append("OADD %d x%s 1 %d" % (0, k.hex(), opts))
-                    old = model.get(k)
-                    plan.append(("add", k, opts, [old] if (k in model and old is not None) else []))
-                    model[k] = None if isnull else uid
+                    if k not in model and not (opts & CONST_KEY) and not isnull and rng.random() < 0.06:
+                        # the insert's first allocation (the copy of the name) fails: the add must fail, the object must be unchanged (checked by the
+                        # lookups/snapshots that follow) and the value must still belong to the caller
+                        cmds += ["FAILNEXT 1", "OADD %d x%s 1 %d" % (0, k.hex(), opts), "FAILNEXT 0", "PUT 1"]
+                        plan.append(("addfail", k, uid))
+                        continue_after = True
+                    else:
+                        continue_after = False
+                        cmds.append("OADD %d x%s 1 %d" % (0, k.hex(), opts))
+                        old = model.get(k)
+                        plan.append(("add", k, opts, [old] if (k in model and old is not None) else []))
+                        model[k] = None if isnull else uid
                 elif r < 0.8:
                     cmds.append("ODEL 0 x%s" % k.hex())
                     old = model.pop(k, None)
@@ -209,6 +217,21 @@ def churn_shard(shard, nshards, seed, tier, exe, nhist):
                     elif dels != st[3]:
                         key, what = "release/" + k, "%s of key %r released %s, model says %s" % (k, st[1][:20], dels, st[3])
                     sh.count("op." + k + (".replace" if k == "add" and st[3] else ""))
+                elif k == "addfail":
+                    ret, fired = int(lines[li + 2].split()[1]), int(lines[li + 3].split("=")[2])
+                    pl = lines[li + 4]
+                    li += 5
+                    if ret == 0:
+                        # the implementation did not need (or tolerated the failure of) that allocation: the static model no longer applies to this history
+                        sh.count("histories_abandoned.injected_fault_did_not_fail_the_add")
+                        break
+                    if not fired:
+                        key, what = "add-failed", "object_add of a new key returned %d although no allocation failed" % ret
+                    elif "del=-" not in lines[li - 3]:
+                        key, what = "release/addfail", "a failed add released something: %s" % lines[li - 3]
+                    elif int(pl.split()[1]) != 1 or "del=%d" % st[2] not in pl:
+                        key, what = "failed-add-consumed-value", "after a failed add the caller's reference is not the only one left: put -> %s" % pl
+                    sh.count("op.add.failed_by_injected_fault")
                 elif k == "get":
                     f = lines[li].split()
                     li += 1
